@@ -3,9 +3,18 @@
 PRELUDE = r'''
 use crate::vm::builtin::*;
 use crate::number::*;
+broadcast use crate::number::numspec::group_num;
 /// `n.is_zero()` is `n == 0` (Kani harnesses num_is_zero_* check it on the real code for exact numbers)
 pub assume_specification [Number::is_zero] (n: &Number) -> (r: bool) ensures is_exact(*n) ==> r == (vnum(*n) == 0);
 pub assume_specification [Number::to_u32] (n: &Number) -> (r: Option<u32>);
+/// (x - 0) * (-1) has the value -x:  n1*dx == nx*d1  and  nv*d1 == -n1*dv  with d1 > 0  give  nv*dx == -nx*dv
+pub proof fn lemma_neg_value(nx: int, dx: int, n1: int, d1: int, nv: int, dv: int)
+    requires d1 > 0, n1 * dx == nx * d1, nv * d1 == -n1 * dv
+    ensures nv * dx == -nx * dv
+{
+    assert((nv * dx) * d1 == (-nx * dv) * d1) by (nonlinear_arith) requires n1 * dx == nx * d1, nv * d1 == -n1 * dv;
+    assert(nv * dx == -nx * dv) by (nonlinear_arith) requires (nv * dx) * d1 == (-nx * dv) * d1, d1 > 0;
+}
 impl vstd::std_specs::convert::FromSpecImpl<Number> for VCell {
     open spec fn obeys_from_spec() -> bool { true }
     open spec fn from_spec(v: Number) -> VCell { VCell::Number(v) }
@@ -39,6 +48,36 @@ UNITS = [{
     'fns': {
         # each procedure establishes the precondition of the Number operation it calls (non-zero divisor, integer operands):
         # removing or weakening a guard fails the callee's precondition here
+        '::minus': {
+            'props': N, 'requires': REQ,
+            'body_start': 'proof { if old(vm).stack_spec().sp_spec() > 1 { axiom_cow_cell_ref(&arg(*old(vm), 1)); } }',
+            'ensures': [
+                # unary minus: an exact answer is exactly the negation, whichever representation carries the operand, and an
+                # exact integer operand never becomes inexact
+                (['C08'], '''r matches Ok(c) ==> (arg(*old(vm), 0) == VCell::ArgumentCount(1) ==> (c matches VCell::Number(v) && (cell_number(old(vm).heap_spec(), arg(*old(vm), 1)) matches Some(x)
+                    ==> (is_exact(v) ==> is_exact(x) && vnum(v) * vden(x) == -vnum(x) * vden(v)) && (is_exact(x) && !(x is Rational) ==> is_exact(v)))))'''),
+            ],
+            'loops': {0: '''invariant
+                    vm.stack_spec().wf(), vm.heap_spec() == old(vm).heap_spec(),
+                    argc == 1 ==> (result == Number::Fixnum(0) && vm.stack_spec().cells() == old(vm).stack_spec().cells() && vm.stack_spec().sp_spec() == old(vm).stack_spec().sp_spec() - 1),'''},
+            'loop_count': 1,
+            'inserts': [
+                {'anchor': 'if argc == 1 {', 'where': 'before', 'text': 'let ghost r1 = result;'},
+                {'anchor': 'Ok(VCell::Number(result))', 'where': 'before', 'text': '''proof {
+                    if argc == 1 && is_exact(result) {
+                        match cell_number(old(vm).heap_spec(), arg(*old(vm), 1)) {
+                            Some(x) => {
+                                assert(vden(r1) > 0);
+                                assert(vnum(r1) * vden(x) == vnum(x) * vden(r1)) by (nonlinear_arith) requires is_diff(r1, x, Number::Fixnum(0i64));
+                                assert(vnum(result) * vden(r1) == -vnum(r1) * vden(result)) by (nonlinear_arith) requires is_prod(result, r1, Number::Fixnum(-1i64));
+                                lemma_neg_value(vnum(x), vden(x), vnum(r1), vden(r1), vnum(result), vden(result));
+                            }
+                            None => {}
+                        }
+                    }
+                }'''},
+            ],
+        },
         '::divide': {'props': N, 'requires': REQ},
         '::quotient': {'props': N, 'requires': REQ},
         '::remainder': {'props': N, 'requires': REQ},
